@@ -24,13 +24,14 @@ class Fn:
     def __init__(self, name, header, csig, scope=None, contract='', loops=None, rules=(), weave=(),
                  harness=None, replace=(), flags=(), solver='sat', timeout=300, props=(), between_ok=r'\s*(const)?\s*',
                  body_pre='', extra_enforce=(), unwind=None, cover=True, configs=None, no_enforce=False, mem_gb=12,
-                 fragment=None, objbits=None):
+                 fragment=None, objbits=None, ctor=False):
         self.name, self.header, self.csig, self.scope = name, header, csig, scope
         self.contract, self.loops, self.rules, self.weave = contract, loops or {}, list(rules), list(weave)
         self.harness, self.replace, self.flags, self.solver = harness, list(replace), list(flags), solver
         self.timeout, self.props, self.between_ok, self.body_pre = timeout, props, between_ok, body_pre
         self.unwind, self.cover, self.no_enforce, self.mem_gb = unwind, cover, no_enforce, mem_gb
         self.fragment, self.objbits = fragment, objbits
+        self.ctor = ctor          # constructor: the mem-initializer list is lowered as leading statements VX_INIT__<member>(<args>);
         self.extract = None
         self.lowered = None
         self.log = None
@@ -176,10 +177,18 @@ def build_unit_text(unit, src):
         out.append(f.csig + ';\n')
     info = {}
     for f in unit.fns:
-        ex = src.function(f.header, f.scope)
-        if not re.fullmatch(f.between_ok, ex['between'], re.S):
-            raise L.ExtractionBreak('%s: unexpected text between header and body: %r' % (f.name, ex['between']))
+        inits = ''
+        if getattr(f, 'ctor', False):
+            # R19: mem-initializer list -> one statement per initializer, in textual order, ahead of the constructor body
+            ex = src.ctor(f.header, f.scope)
+            inits = ''.join(' VX_INIT__%s(%s);' % it for it in ex['inits'])
+        else:
+            ex = src.function(f.header, f.scope)
+            if not re.fullmatch(f.between_ok, ex['between'], re.S):
+                raise L.ExtractionBreak('%s: unexpected text between header and body: %r' % (f.name, ex['between']))
         body = ex['body']
+        if inits:
+            body = '{' + inits + body[1:]
         if f.fragment:
             body = f.fragment(body)
         body, nloops = L.weave_loops(body, f.loops, f.name)
